@@ -14,6 +14,12 @@ import OxiddModel.Locks.Driver
 import OxiddModel.Alloc.Driver
 import OxiddModel.Reorder.DriverStore
 import OxiddModel.Reorder.DriverStoreC
+import OxiddModel.Bdd.DriverRc
+import OxiddModel.Bdd.DriverUniform
+import OxiddModel.Bdd.DriverCountS
+import OxiddModel.Bdd.LevelTableDriver
+import OxiddModel.Bdd.DriverThreshold
+import OxiddModel.AigerParse.Driver
 
 open OxiddModel
 
@@ -36,7 +42,14 @@ def protos : List (String × Proto) := [
   ("alloc", OxiddModel.Alloc.proto),
   ("capi-before-fix", OxiddModel.Ffi.protoBeforeFix),
   ("reorder-store", OxiddModel.Reorder.SwapStore.proto),
-  ("reorder-store-bcdd", OxiddModel.Reorder.SwapStoreC.proto)
+  ("reorder-store-bcdd", OxiddModel.Reorder.SwapStoreC.proto),
+  ("bdd-rc", OxiddModel.Bdd.DriverRc.proto),
+  ("uniformprob", OxiddModel.Bdd.DriverUniform.proto),
+  ("countcache", OxiddModel.Bdd.CountS.Driver.proto),
+  ("leveltbl", OxiddModel.Bdd.LevelTable.Driver.proto),
+  ("c14t", OxiddModel.Bdd.ThresholdDriver.proto),
+  ("aigparse", OxiddModel.AigerParse.proto),
+  ("aigparse-noskip", OxiddModel.AigerParse.protoNoSkip)
 ]
 
 def main (args : List String) : IO UInt32 := do
